@@ -82,6 +82,13 @@ def checkTrans (c : Case) : VM Unit := do
         | "taddown" => match assocGet? tours v with
           | some t => Transition.addVehicleToOwnCycle nw tr v t
           | none => .error (.panic "no tour")
+        | "tupdate2" =>
+          let v2 := vehTok (rest.getD 2 "v0")
+          match assocGet? tours' v, assocGet? tours' v2 with
+          | some n1, some n2 => do
+            let t1 ← Transition.updateVehicle nw tr v n1 [] tours
+            Transition.updateVehicle nw t1 v2 n2 [(v, n1)] tours
+          | _, _ => .error (.panic "no tour")
         | "tupdate" => match assocGet? tours' v with
           | some nt => Transition.updateVehicle nw tr v nt [] tours
           | none => .error (.panic "no tour")
